@@ -10,6 +10,12 @@ NOTE = ("Trusted base: Coq 8.16.1 kernel (vm_compute in closed-term lemmas, no n
         "canonicalisation); tools/py2v.py for generated units. The theorems are about hand-written Gallina models; the "
         "models are tied to /repo by the correspondence run of this check (and by the translator where stated). ")
 CLAIMED = {
+ 'C05': dict(cat='proof', tech='Coq theorem (Copeland elects the Condorcet winner, for all pairwise dictionaries) over Gallina models of all ten condorcet.EVALUATORS entries + extraction-based correspondence and brute-force references for the clauses not yet proved',
+             text='Proved for every pairwise dictionary: Copeland (raw and second order) returns exactly the Condorcet winner for one seat; the win-loss score characterisation. All other evaluators (Schulze, minimax x3, ranked pairs x3, Kemeny) are modelled faithfully (0 disagreements) and their Condorcet-winner / Smith / nobody-dropped clauses are decided per explored case against brute-force references - stated as partial. Four candidate-dropping / sparse-dictionary defects found by the check were repaired with fix: commits.',
+             ref='DESIGN.md 3 C05', note='Modelled, not verified: condorcet.py evaluators and pairwin_scorer.py (Model/Condorcet.v). Partial: only the Copeland clause is a theorem; Benham/TidemanAlternative not covered yet.'),
+ 'C06': dict(cat='proof', tech='Coq theorems over Gallina models of CondorcetWinner and the Smith/Schwartz prefix routine (all pairwise dictionaries) + exhaustive small-domain correspondence + brute-force references; Schwartz clause refuted by a machine-checked counterexample',
+             text='CondorcetWinner returns exactly the candidate beating all others (iff, uniqueness) for every pairwise dictionary incl. sparse ones; the Smith/Schwartz routine returns a non-empty Copeland-order prefix and its single sorted pass is complete (closure theorem). Domination/minimality of the Smith output is decided per case against a brute-force reference over all candidate subsets (exhaustive for <=3 candidates, every relation shape). The Schwartz clause is false of the faithful model (C06_schwartz_refuted): known finding C06-schwartz. The sparse-dictionary Smith defect was repaired by a fix: commit.',
+             ref='DESIGN.md 3 C06', note='Modelled, not verified: pairwise_wins, beat_counts, CondorcetWinner, _smith_schwartz_set (Model/Condorcet.v). Partial: Smith domination+minimality not yet a theorem.'),
  'C16': dict(cat='proof', tech='Coq theorems over Gallina models of the threshold selectors, QuotaSelector and ThresholdOpenList (all inputs, all configurations) + extraction-based correspondence with on-threshold generators',
              text='Membership characterisations (exact share vs threshold, accept_equal, union for alternatives, any nesting), the closed form of the open-list fill-up loop, exactly-n-distinct-members, jumpers-first-by-votes and no-leapfrog are proved for every input; models tied to threshold.py/openlist.py/approval.py by differential runs whose generators put a candidate exactly on every threshold. Two boundary defects found by the check were repaired with fix: commits.',
              ref='DESIGN.md 3 C16', note='Modelled, not verified: threshold.py selectors and bracketers, openlist.ThresholdOpenList, Tie.break_by_list, approval.QuotaSelector. Bracketers and break_by_list are tied by correspondence only (no theorem yet).'),
